@@ -138,6 +138,8 @@ class DependsWorld:
             elif k in ('update', 'batch'):
                 ps = rng.sample(PARAMS, rng.randint(1, 3))
                 ops.append({'op': k, 'i': i, 'ps': ps, 'same': [p for p in ps if rng.random() < 0.2]})
+                if k == 'batch' and rng.random() < 0.3:
+                    ops[-1]['slot'] = True
             elif k == 'slot':
                 ops.append({'op': 'slot', 'i': i})
             else:
@@ -274,9 +276,33 @@ class DependsWorld:
             last_setters[0] = setters
             return sorted(exp)
 
-        def check(step, what, exp):
+        def check(step, what, exp, twice_ok=(), c_dependents=()):
             got = sorted(log)
             del log[:]
+            if got != exp and twice_ok:
+                # known finding: a value and a Parameter attribute of the method's dependencies changed in ONE batch; the two kinds
+                # of change are watched separately, so such a method runs once per kind
+                adj = list(got)
+                hit = []
+                for x in twice_ok:
+                    if adj.count(x) == exp.count(x) + 1:
+                        adj.remove(x)
+                        hit.append(x)
+                cascade = [x for x in adj if adj.count(x) > exp.count(x)]
+                if hit and cascade and all(x in c_dependents for x in cascade) and not [x for x in exp if exp.count(x) > adj.count(x)]:
+                    # the second run of such a method assigned c once more: its dependents ran once more as well
+                    for x in set(cascade):
+                        while adj.count(x) > exp.count(x):
+                            adj.remove(x)
+                if hit and sorted(adj) == exp:
+                    d = (f"{what}: {hit} ran twice in one batch that changed both a value and a Parameter attribute they depend on "
+                         f"(one watcher per kind of change)")
+                    from ..kernel import tolerated
+                    if 'C06.value_and_attribute_in_one_batch' in tolerated('C06'):
+                        out.known.append(('C06.value_and_attribute_in_one_batch', d))
+                        return True
+                    out.violations.append(('C06.value_and_attribute_in_one_batch', step, d))
+                    return False
             if got != exp:
                 extra = [x for x in got if got.count(x) > exp.count(x)]
                 missing = [x for x in exp if exp.count(x) > got.count(x)]
@@ -372,6 +398,9 @@ class DependsWorld:
                     with param.parameterized.batch_call_watchers(o):
                         for p in op['ps']:
                             setattr(o, p, getattr(o, p) if p in op['same'] else fresh())
+                        if op.get('slot'):
+                            o.param.a.bounds = (-fresh(), None)
+                            changed.add(('a', 'bounds'))
                     changed |= {(p, 'value') for p in op['ps'] if p not in op['same']}
                 elif k == 'slot':
                     o.param.a.bounds = (-fresh(), None)
@@ -390,7 +419,24 @@ class DependsWorld:
                 multi = True
             out.log.append(f"{step} {k} I{i}(K{ci}) changed={sorted(changed)} expect={exp}")
             out.stats['op.' + k] += 1
-            check(step, f"{k} on I{i} (class K{ci}) changing {sorted(changed)}", exp)
+            twice_ok, c_deps = (), ()
+            if k == 'batch' and op.get('slot') and any(w == 'value' for _, w in changed):
+                names_ = set()
+                for kk in mro_of(classes, ci):
+                    names_ |= set(classes[kk]['methods'])
+                twice_ok, c_deps = [], []
+                for m_ in sorted(names_):
+                    kk, d_ = active_def(classes, ci, m_)
+                    cl_ = closure(classes, ci, m_)
+                    if d_.get('dec') and d_.get('watch') and ('a', 'bounds') in cl_ and any(c_ in cl_ for c_ in changed if c_[1] == 'value'):
+                        twice_ok.append((f"K{kk}", m_))
+                    if d_.get('dec') and d_.get('watch') and ('c', 'value') in cl_:
+                        c_deps.append((f"K{kk}", m_))
+                if any(active_def(classes, ci, m_)[1].get('sets') for _, m_ in twice_ok):
+                    c_deps += [('FF', f"f{fi}") for fi, deps in enumerate(ffs) if any(di == i and p == 'c' for di, p in deps)]
+                else:
+                    c_deps = []
+            check(step, f"{k} on I{i} (class K{ci}) changing {sorted(changed)}", exp, twice_ok, c_deps)
             states.append(f"{len(classes)}|{exp}")
         has_override = any(m in classes[k]['methods'] for k in range(1, len(classes)) for m in classes[0]['methods'])
         has_mdep = any('b0' in d.get('deps', []) for c in classes for d in c['methods'].values())
